@@ -176,7 +176,7 @@ func (g G) DualConfig() []DualItem {
 			}
 			usedOut[nm] = true
 			it := DualItem{Kind: "block", Name: "output", Labels: []string{nm}}
-			for _, an := range []string{"value", "str", "of", "ofres", "one", "lst", "mp", "ob", "lit"} {
+			for _, an := range []string{"value", "str", "of", "ofres", "one", "lst", "mp", "ob", "lit", "cmp"} {
 				if !g.Chance(45) {
 					continue
 				}
@@ -219,7 +219,8 @@ func (g G) DualConfig() []DualItem {
 					it.Body = append(it.Body, DualItem{Kind: "attr", Name: an, Value: &v})
 				case "lit":
 					it.Body = append(it.Body, DualItem{Kind: "attr", Name: an, Value: ptrDV(g.dualLitString())})
-				case "of":
+				case "of", "cmp":
+					// ("cmp" is computed-only: assigning it is a validation matter, the reference written is a reference all the same)
 					it.Body = append(it.Body, DualItem{Kind: "attr", Name: an, Value: &DualValue{Kind: Pick(g, []string{"ref", "bare"}), Ref: "var." + Pick(g, refNames)}})
 				case "ofres":
 					it.Body = append(it.Body, DualItem{Kind: "attr", Name: an, Value: &DualValue{Kind: Pick(g, []string{"ref", "bare"}), Ref: Pick(g, refTypes) + "." + Pick(g, refNames)}})
@@ -263,6 +264,7 @@ func (g G) RefSchemaSimple() m.BodyM {
 		"n": {Flag: "optional", Cons: m.ConsM{K: "oneof", Elems: []m.ConsM{{K: "ref", Scope: "resource"}, litStr}}},
 	}}}
 	out.Body.Attrs["lit"] = m.AttrM{Flag: "optional", Cons: litStr}
+	out.Body.Attrs["cmp"] = m.AttrM{Flag: "computed", Cons: refVar}
 	root.Blocks["output"] = out
 	// second level: the dependent bodies of resource (keyed by the type label) declare a key
 	// attribute of their own; a further body is registered under one of its values only
